@@ -1324,3 +1324,124 @@ def check_hl_per_dataset(ctx):
     if not n:
         ctx.holds('HL-PER-DS', TREPR, 'no flag column obtained by repeating '
                   'one non-constant array', nontrivial=False)
+
+
+# ---------------------------------------------------------- ZIP-PARALLEL ---
+
+def _reorder_kind(func_node, expr, defs, depth=0):
+    '''('sorted', text) / ('filter', text) when the sequence denoted by the
+    expression has been re-ordered or filtered, None when it is taken as it
+    is.'''
+    if depth > 4:
+        return None
+    if isinstance(expr, ast.Name):
+        for node in ast.walk(func_node):
+            if isinstance(node, ast.Call) and call_name(node) in (
+                    'sort', 'reverse') and isinstance(
+                        receiver(node), ast.Name) and \
+                    receiver(node).id == expr.id:
+                return ('sorted', txt(node)[:50])
+        vals = defs.get(expr.id, [])
+        if len(vals) == 1:
+            return _reorder_kind(func_node, vals[0], defs, depth + 1)
+        return None
+    if isinstance(expr, ast.Call) and isinstance(expr.func, ast.Name):
+        if expr.func.id in ('sorted', 'reversed'):
+            return ('sorted', txt(expr)[:50])
+        if expr.func.id == 'filter':
+            return ('filter', txt(expr)[:50])
+        if expr.func.id in ('list', 'tuple') and expr.args:
+            return _reorder_kind(func_node, expr.args[0], defs, depth + 1)
+    if isinstance(expr, (ast.ListComp, ast.GeneratorExp)):
+        if any(gen.ifs for gen in expr.generators):
+            return ('filter', txt(expr)[:50])
+        if len(expr.generators) == 1:
+            return _reorder_kind(func_node, expr.generators[0].iter, defs,
+                                 depth + 1)
+    if isinstance(expr, ast.Subscript) and isinstance(
+            expr.slice, ast.Slice) and isinstance(
+                expr.slice.step, ast.UnaryOp):
+        return ('sorted', txt(expr)[:50])
+    return None
+
+
+def _local_defs(func):
+    defs = {}
+    for node in walk_local(func.node):
+        if isinstance(node, ast.Assign) and len(node.targets) == 1 and \
+                isinstance(node.targets[0], ast.Name):
+            defs.setdefault(node.targets[0].id, []).append(node.value)
+    return defs
+
+
+def check_zip_parallel(ctx, modules=(TREPR,)):
+    """Sequences walked in parallel (`zip(rows, oracles)`) pair their
+    elements by POSITION: when one of them has been sorted, reversed or
+    filtered and another one has not, the marks land on the wrong rows.  The
+    operands are followed to their origin: through single-assignment locals,
+    and through the parameters of a helper to the arguments of its call sites
+    in the module."""
+    program = ctx.program
+    n = 0
+    for modname in modules:
+        mod = program.module(modname)
+        program.consulted.add(mod.relpath)
+        callers = {}
+        for func in mod.functions.values():
+            for call in calls_in(func.node):
+                if isinstance(call.func, ast.Name):
+                    callers.setdefault(call.func.id, []).append((func, call))
+        for func in mod.functions.values():
+            defs = _local_defs(func)
+            for call in calls_in(func.node):
+                if not (isinstance(call.func, ast.Name) and
+                        call.func.id == 'zip' and len(call.args) >= 2):
+                    continue
+                n += 1
+                # one list of kinds per calling context
+                contexts = [(func, None)]
+                if any(isinstance(a, ast.Name) and a.id in func.params
+                       for a in call.args) and callers.get(func.name):
+                    contexts = [(cfunc, ccall)
+                                for cfunc, ccall in callers[func.name]]
+                bad = None
+                for cfunc, ccall in contexts:
+                    kinds = []
+                    for arg in call.args:
+                        kind = _reorder_kind(func.node, arg, defs)
+                        if kind is None and ccall is not None and isinstance(
+                                arg, ast.Name) and arg.id in func.params:
+                            pos = func.params.index(arg.id)
+                            actual = ccall.args[pos] if pos < len(
+                                ccall.args) else next(
+                                    (k.value for k in ccall.keywords
+                                     if k.arg == arg.id), None)
+                            if actual is not None:
+                                kind = _reorder_kind(cfunc.node, actual,
+                                                     _local_defs(cfunc))
+                        kinds.append(kind)
+                    if any(k is not None for k in kinds) and any(
+                            k is None for k in kinds):
+                        bad = (cfunc, kinds)
+                        break
+                where = func.where(call)
+                if bad is None:
+                    ctx.holds('ZIP-PARALLEL', func,
+                              f'{func.name}: {txt(call)[:50]} operands in '
+                              f'their common order', at=where,
+                              nontrivial=False)
+                else:
+                    cfunc, kinds = bad
+                    moved = next(k for k in kinds if k is not None)
+                    still = txt(call.args[kinds.index(None)])
+                    ctx.violated(
+                        'ZIP-PARALLEL', func,
+                        f'{func.name}: {txt(call)[:50]} pairs a re-ordered '
+                        f'sequence ({moved[1]}'
+                        + (f', in {cfunc.name}' if cfunc is not func else '')
+                        + f') with `{still}` in its original order',
+                        at=where,
+                        detail='rows and marks are paired by position: the '
+                               'highlight of one category is put on '
+                               'another one')
+    ctx.floor('ZIP-PARALLEL', n, 5, 'zip() calls in the table representers')
